@@ -9,21 +9,6 @@ namespace AV
 
 set_option linter.unusedSectionVars false
 
-theorem alookup_of_mem_nodup {κ β : Type} [DecidableEq κ] {l : List (κ × β)} {k : κ} {v : β}
-    (hnd : (akeys l).Nodup) (h : (k, v) ∈ l) : alookup k l = some v := by
-  induction l with
-  | nil => cases h
-  | cons x l ih =>
-    obtain ⟨k', v'⟩ := x
-    simp only [akeys, List.map_cons, List.nodup_cons] at hnd
-    rcases List.mem_cons.mp h with e | e
-    · cases e; simp [alookup_cons]
-    · have : k' ≠ k := by
-        intro hk; subst hk
-        exact hnd.1 (List.mem_map.mpr ⟨(k', v), e, rfl⟩)
-      simp only [alookup_cons, this, if_false]
-      exact ih hnd.2 e
-
 theorem filter_sublist_of_imp {β : Type} (p q : β → Bool) (l : List β) (h : ∀ a ∈ l, p a = true → q a = true) :
     (l.filter p).Sublist (l.filter q) := by
   induction l with
